@@ -15,7 +15,7 @@ from traits.api import (
     BaseCInt, BaseCFloat, BaseCStr, BaseCBool, Range, BaseRange, Enum, BaseEnum, Tuple, BaseTuple,
     Union, Either, String, PrefixList, PrefixMap, Map, Callable, BaseCallable, Instance, BaseInstance,
     Type, This, List, Dict, Set, Array, ArrayOrNone, CArray, Date, Time, Datetime, Any, Trait,
-    Undefined, Title, Regex, Module,
+    Undefined, Title, Regex, Module, ValidatedTuple, Property,
 )
 
 from vf.lattice import lattice, Plain, PlainSub
@@ -194,6 +194,27 @@ def atomic_specs():
     add("Time(none)", "Time", lambda: Time(allow_none=True), rf.ref_simple_instance(_dt.time, True))
     add("Datetime", "Datetime", lambda: Datetime(), rf.ref_simple_instance(_dt.datetime, False))
     add("Datetime(none)", "Datetime", lambda: Datetime(allow_none=True), rf.ref_simple_instance(_dt.datetime, True))
+    # a tuple with its own predicate over CONVERTING members
+    add("ValidatedTuple(CFloat,CFloat,a<b)", "ValidatedTuple",
+        lambda: ValidatedTuple(CFloat, CFloat, fvalidate=lambda t: t[0] < t[1]),
+        rf.ref_validated_cast_tuple((float, float), lambda t: t[0] < t[1]))
+    add("ValidatedTuple(CInt,CInt,a<b)", "ValidatedTuple",
+        lambda: ValidatedTuple(CInt, CInt, fvalidate=lambda t: t[0] < t[1]),
+        rf.ref_validated_cast_tuple((int, int), lambda t: t[0] < t[1]))
+    add("ValidatedTuple(CInt,CFloat,a!=b)", "ValidatedTuple",
+        lambda: ValidatedTuple(CInt, CFloat, fvalidate=lambda t: t[0] != t[1]),
+        rf.ref_validated_cast_tuple((int, float), lambda t: t[0] != t[1]))
+    # validated Property traits: the declaring class, subclasses overriding nothing / only the
+    # getter / only the setter / both (the value must still be validated by the declared trait)
+    for pname, mk_inner, dflt, pref in (
+            ("Range(0.0,10.0)", lambda: Range(0.0, 10.0), 0.5, rf.ref_range_float(0.0, 10.0, False, False)),
+            ("Float", lambda: Float(), 0.0, rf.ref_float),
+            ("Enum('a','b')", lambda: Enum("a", "b"), "a", rf.ref_enum(("a", "b"))),
+            ("Int", lambda: Int(), 0, rf.ref_int)):
+        for variant in ("base", "sub-none", "sub-getter", "sub-setter", "sub-both", "subsub-setter"):
+            add("Property(%s)/%s" % (pname, variant), "Property.validated",
+                lambda mk_inner=mk_inner, dflt=dflt, variant=variant: _property_class(mk_inner, dflt, variant),
+                pref)
     add("Array(f8)", "Array", lambda: Array(dtype="float64"), rf.ref_array(np.dtype("float64"), None))
     add("Array(shape(None,2))", "Array", lambda: Array(shape=(None, 2)), rf.ref_array(None, (None, 2)))
     add("Array(i4,((1,3),))", "Array", lambda: Array(dtype="int32", shape=((1, 3),)),
@@ -207,6 +228,31 @@ def atomic_specs():
     add("ArrayOrNone(f8,(None,))", "ArrayOrNone", lambda: ArrayOrNone(dtype="float64", shape=(None,)),
         rf.ref_array_or_none(np.dtype("float64"), (None,)))
     return S
+
+
+def _property_class(mk_inner, dflt, variant):
+    """Returns a CLASS (not a trait): x is a validated Property storing into _x."""
+    def getter(self):
+        return self.__dict__.get("_x", dflt)
+
+    def setter(self, value):
+        self.__dict__["_x"] = value
+    Base = MetaHasTraits("PBase", (HasTraits,), {
+        "x": Property(mk_inner()), "other": Int(3), "_get_x": getter, "_set_x": setter})
+    if variant == "base":
+        return Base
+
+    def getter2(self):
+        return self.__dict__.get("_x", dflt)
+
+    def setter2(self, value):
+        self.__dict__["_x"] = value
+    body = {"sub-none": {}, "sub-getter": {"_get_x": getter2}, "sub-setter": {"_set_x": setter2},
+            "sub-both": {"_get_x": getter2, "_set_x": setter2}, "subsub-setter": {}}[variant]
+    Sub = MetaHasTraits("PSub", (Base,), body)
+    if variant == "subsub-setter":
+        Sub = MetaHasTraits("PSubSub", (Sub,), {"_set_x": setter2})
+    return Sub
 
 
 COLL_OK = ("Int", "Float", "Str", "Bool", "CInt", "Range(0.0,1.0,xl=0,xh=0)", "Range(0,10,xl=0,xh=0)",
@@ -390,7 +436,11 @@ def run(ctx):
             continue
         try:
             try:
-                K = MetaHasTraits("K%d" % si, (HasTraits,), {"x": thunk(), "other": Int(3)})
+                made = thunk()
+                if isinstance(made, type):
+                    K = made              # the spec builds its own class
+                else:
+                    K = MetaHasTraits("K%d" % si, (HasTraits,), {"x": made, "other": Int(3)})
             except Exception as e:
                 ctx.count("spec_construction_failed")
                 continue
